@@ -309,11 +309,26 @@ func (s *sink) shutdown() {
 
 var nasty = []string{"%", "%%", "%s", "%d", "%v", "%!s(MISSING)", "%x%x%x", "100%", "%5.2f", "%[1]d", "%*d", "a%", "\\n", "\t", "\r", "\x00", "\x7f", "é", "\xff\xfe", "{}", "\"q\"", "%!(EXTRA"}
 
+var sizeLadder = []int{100, 4095, 4096, 4097, 64, 9000, 18000, 17999, 18001, 36000, 36001, 8191, 8192, 8193, 1023, 1024, 1025, 2047, 2048, 2049, 511, 512, 513,
+	255, 256, 257, 127, 128, 129, 16383, 16384, 16385, 32767, 32768, 32769, 65535, 65536, 65537, 131072, 40, 4096, 8192, 4096}
+
 func genMsg(g *mon.RNG, scn, k int, content string, maxLen int) []byte {
 	var sb bytes.Buffer
 	fmt.Fprintf(&sb, `{"id":"%d-%d","v":"`, scn, k)
 	n := g.Range(0, 60)
 	switch content {
+	case "sizes":
+		// message k of a "sizes" scenario has EXACTLY the k-th length of the ladder: powers of two and their
+		// neighbours, doublings of an odd size - the places where a reused or pre-sized line buffer is exactly full
+		l := sizeLadder[k%len(sizeLadder)]
+		if l > maxLen {
+			l = maxLen - k%7
+		}
+		for sb.Len() < l-2 {
+			sb.WriteByte(byte('a' + (sb.Len()+k)%26))
+		}
+		sb.WriteString(`"}`)
+		return sb.Bytes()[:max(l, 24)]
 	case "big":
 		if g.Chance(1, 6) {
 			n = g.Range(4096, 262144)
@@ -726,6 +741,10 @@ func scenarios(seed int64, thorough bool) []scenario {
 			}
 		}
 	}
+	// no fault at all, but message lengths that fill buffers exactly
+	for _, proto := range []string{"tcp", "udp"} {
+		add(scenario{Proto: proto, Retry: 2, N: len(sizeLadder), Content: "sizes"})
+	}
 	// the transport under its other names: "tcp4" / "udp4" are what a dual-stack-wary operator writes
 	for _, kind := range []string{"close", "rst", "midline"} {
 		for _, r := range []int{0, 2} {
@@ -865,7 +884,7 @@ func main() {
 	run.Set("stalls_injected", stalls)
 	run.Set("stalls_in_which_a_producer_write_blocked_mid_message", stallsBlocked)
 	run.Set("backends_not_reached", []string{"kafka (sarama)", "kafka (segmentio)", "nsq: need brokers that do not exist in this sandbox"})
-	run.SetRule("real producer.NewProducer('rawSocket') + config file + Run() against an in-process sink. Fault enumeration: {graceful close, RST, mid-line reset, stall (sink stops reading until a producer write blocks mid-message, then RST), pause (the same, but the sink sleeps 6.5 s and then reads on over the same connection), listener+connection down} × fault position {before first, after message 1,2,5,17} × downtime {0,1,5,50 hand-overs} × retry-max {0,1,2,5}, tcp and udp (also configured as tcp4 / udp4), plus seeded sequences of 2-5 faults; contents with every % verb, %%, trailing %, binary octets, up to 256 KiB. Oracle over the sink's byte streams (connections in accept order): every complete line is byte-identical to a handed-over message plus newline, no duplicates, no inversions, every message handed over while the sink had been reachable for more than 4 messages is present, delivery resumes after every fault. distinct = scenario descriptor")
+	run.SetRule("real producer.NewProducer('rawSocket') + config file + Run() against an in-process sink. Fault enumeration: {graceful close, RST, mid-line reset, stall (sink stops reading until a producer write blocks mid-message, then RST), pause (the same, but the sink sleeps 6.5 s and then reads on over the same connection), listener+connection down} × fault position {before first, after message 1,2,5,17} × downtime {0,1,5,50 hand-overs} × retry-max {0,1,2,5}, tcp and udp (also configured as tcp4 / udp4), plus seeded sequences of 2-5 faults; contents with every % verb, %%, trailing %, binary octets, up to 256 KiB, and a fault-free ladder of exact lengths (2^k and neighbours, doublings). Oracle over the sink's byte streams (connections in accept order): every complete line is byte-identical to a handed-over message plus newline, no duplicates, no inversions, every message handed over while the sink had been reachable for more than 4 messages is present, delivery resumes after every fault. distinct = scenario descriptor")
 	run.Assume("bounded gap = at most 4 judged messages after the sink is reachable again (derivation in DESIGN.md C14)")
 	run.Assume("loopback TCP delivers what the kernel accepted within 20 s (watchdog for 'never arrived')")
 	run.Finish()
